@@ -66,6 +66,18 @@ def check(rep, rule, instance, f, w, extra_leave=None):
     if not [i for i in f.all_insts() if reload_(i)]:
         rep.bad(rule, instance, "wait word is never re-read in %s: a spurious wake-up or EINTR cannot be told from a real one" % f.name, [w.where()])
         return False
+    # the value FUTEX_WAIT compares the word with is the value the guard just read: sleeping on any other value either never
+    # sleeps (EAGAIN busy loop) or sleeps although the wake-up condition already holds
+    k = 3 if w.callee == "syscall" else 2
+    exp = ir.const_of(f, w.args[k]) if len(w.args) > k else None
+    if exp is not None:
+        lv = pat.dom_leaf_atoms(f, w)
+        g = [a for a in lv if a[0] in ("eq", "ne") and a[1][0] == "load" and a[2][0] == "c" and same_word(f, ap, mm.effect_of(f.insts[a[1][3]]))]
+        if g:
+            okg = any(a[0] == "eq" and a[2][1] == exp for a in g)
+            rep.check(okg, rule, instance + ".guard=expected", "FUTEX_WAIT sleeps while the word still has the value (%d) the guard just read" % exp,
+                      "FUTEX_WAIT expects %d but the wait is entered on %s: the thread sleeps although the wake-up condition already holds (lost wake-up) or never sleeps" %
+                      (exp, [ir.atom_str(a) for a in g][:2]), [w.where()])
     return rep.must_pass(rule, instance, f, [w], writes, reload_, edge_ok=eok, to_exit=True,
                          what="after the futex wait returns (0, spurious, EINTR) the wait word is re-read before the function returns or writes the word (EAGAIN edge excepted)")
 
